@@ -1,9 +1,9 @@
 package props
 
 import (
-	"sort"
 	"encoding/json"
 	"fmt"
+	"sort"
 	"strings"
 	"sync/atomic"
 
@@ -288,6 +288,12 @@ func c19SelParams(list [][2]int64, f func(cas c19Sel)) {
 type c19Hist struct {
 	Init []int    `json:"init"` // ids (1..3) of the coins handed to NewCoinSet; empty = NewCoinSet(nil)
 	Ops  []string `json:"ops"`  // push1 | push2 | push3 | pop | shift
+	// observation schedule: bit i set = the observers are NOT called at point i (0 = after
+	// construction, i = after operation i); the last point is always observed in full.  At the
+	// intermediate points that are observed, Observers selects which observers run ("" = all,
+	// "coins", "tx", "totals").  Observers must not change what later observations return.
+	Skip      uint32 `json:"skip_observation_mask,omitempty"`
+	Observers string `json:"intermediate_observers,omitempty"`
 }
 
 var c19Ops = []string{"push1", "push2", "push3", "pop", "shift"}
@@ -320,23 +326,33 @@ var c19OpsExecuted atomic.Int64
 // c19Observe evaluates every observer of the statement on the real set and compares with the
 // model.  It returns the violation class ("" if all agree) and the implementation's observable
 // state rendered as a key.
-func c19Observe(set *coinset.CoinSet, m *ref.CoinSetModel) (class, detail, implKey string) {
+func c19Observe(set *coinset.CoinSet, m *ref.CoinSetModel, kind string) (class, detail, implKey string) {
 	var num int
 	var tv, tva int64
 	var coins []coinset.Coin
 	var tx *wire.MsgTx
+	doTotals, doCoins, doTx := kind == "" || kind == "totals", kind == "" || kind == "coins", kind == "" || kind == "tx"
 	if msg, p := mc.Guard(func() {
-		num = set.Num()
-		tv = int64(set.TotalValue())
-		tva = set.TotalValueAge()
-		coins = set.Coins()
-		tx = coinset.NewMsgTxWithInputCoins(wire.TxVersion, set)
+		if doTotals {
+			num = set.Num()
+			tv = int64(set.TotalValue())
+			tva = set.TotalValueAge()
+		}
+		if doCoins {
+			coins = set.Coins()
+		}
+		if doTx {
+			tx = coinset.NewMsgTxWithInputCoins(wire.TxVersion, set)
+		}
 	}); p {
 		return "coinset/panic", "observer panicked: " + msg, ""
 	}
+	if !doTotals {
+		num, tv, tva = len(m.IDs), m.Sum(c19SetValue), m.Sum(c19SetAge)
+	}
 	var sb strings.Builder
 	fmt.Fprintf(&sb, "n=%d v=%d a=%d [", num, tv, tva)
-	identOK := len(coins) == len(m.IDs)
+	identOK := len(coins) == len(m.IDs) || !doCoins
 	for i, k := range coins {
 		kc, ok := k.(*c19Coin)
 		if ok && kc != nil {
@@ -361,6 +377,9 @@ func c19Observe(set *coinset.CoinSet, m *ref.CoinSetModel) (class, detail, implK
 	}
 	if !identOK {
 		return "coinset/coins-differ-from-model", fmt.Sprintf("Coins() = %s, model %v", implKey, m.IDs), implKey
+	}
+	if !doTx {
+		return "", "", implKey
 	}
 	if tx == nil || len(tx.TxIn) != len(m.IDs) {
 		return "coinset/tx-input-count-differs", fmt.Sprintf("model %v", m.IDs), implKey
@@ -395,7 +414,13 @@ func c19RunHist(w *mc.W, cas c19Hist, countFrom int) (modelKey, implKey string, 
 		return "", "", false
 	}
 	w.Eval()
-	class, detail, ik := c19Observe(set, m)
+	last := len(cas.Ops)
+	var class, detail, ik string
+	if last == 0 {
+		class, detail, ik = c19Observe(set, m, "")
+	} else if cas.Skip&1 == 0 {
+		class, detail, ik = c19Observe(set, m, cas.Observers)
+	}
 	if class != "" {
 		c.Violate(class, "hist", cas, "after NewCoinSet: "+detail)
 		return fmt.Sprint(m.IDs), ik, false
@@ -451,8 +476,15 @@ func c19RunHist(w *mc.W, cas c19Hist, countFrom int) (modelKey, implKey string, 
 				return fmt.Sprint(m.IDs), "", false
 			}
 		}
+		if i+1 < last && cas.Skip>>uint(i+1)&1 == 1 {
+			continue
+		}
 		w.Eval()
-		class, detail, ik = c19Observe(set, m)
+		if i+1 == last {
+			class, detail, ik = c19Observe(set, m, "")
+		} else {
+			class, detail, ik = c19Observe(set, m, cas.Observers)
+		}
 		if class != "" {
 			c.Violate(class, "hist", cas, at+detail)
 			return fmt.Sprint(m.IDs), ik, false
@@ -763,5 +795,44 @@ func runC19(c *mc.Ctx) {
 		}
 		c19RunHist(w, h, from)
 	})
+	// ---- coin set: observation schedules ----------------------------------------------------------
+	// The runs above call every observer after every operation.  An observer that leaves something
+	// behind (a memoised slice, a lazily recomputed total) can then never be caught returning stale
+	// data, because it is refreshed at every step.  Here every history of the (smaller) bound is run
+	// under every subset of its intermediate observation points, with each choice of which observers
+	// run there; the final observation is always complete.
+	obsDepth := mc.Pick(c, 5, 6)
+	perO := int64(0)
+	for d, s := 0, int64(1); d <= obsDepth; d, s = d+1, s*int64(len(c19Ops)) {
+		perO += s
+	}
+	nHistO := perO * int64(len(c19Inits))
+	var schedules atomic.Int64
+	c.ParFor(nHistO, func(w *mc.W, i int64) {
+		h := c19HistAt(i, obsDepth)
+		d := len(h.Ops)
+		if d == 0 {
+			return
+		}
+		n := int64(0)
+		for _, kind := range []string{"", "coins", "tx", "totals"} {
+			for mask := uint32(0); mask < 1<<uint(d); mask++ {
+				if mask == 0 && kind == "" {
+					continue // the fully observed run, done above
+				}
+				if mask == 1<<uint(d)-1 && kind != "" {
+					continue // no intermediate observation at all: the same run for every kind
+				}
+				hh := c19Hist{Init: h.Init, Ops: h.Ops, Skip: mask, Observers: kind}
+				w.Trace()
+				w.State()
+				c19RunHist(w, hh, d) // no new transitions: the operations are those of the histories above
+				n++
+			}
+		}
+		schedules.Add(n)
+	})
+	c.Space(fmt.Sprintf("coin-set observation schedules: every history of length <= %d x every subset of intermediate observation points x observers {all, Coins, NewMsgTxWithInputCoins, totals}", obsDepth), schedules.Load())
+	c.Sample("hist", c19Hist{Init: []int{1, 2}, Ops: []string{"pop", "push3", "shift"}, Skip: 2, Observers: "coins"})
 	c.Note("coinset_operations_executed_on_real_objects_including_replayed_prefixes", c19OpsExecuted.Load())
 }
